@@ -257,14 +257,9 @@ def s_run(draw, mdl: M.Model, min_steps=3, max_steps=40, c=(0.02, 1.2), same_uni
     return {'op': 'run', 'dt': dt, 'T': T, 'steps': n}
 
 
-@st.composite
-def s_case(draw, max_len=6, worm='maybe', locking=None, histories=('run', 'run+continue', 'reset+rerun'),
-           load_kinds=('const', 'speed', 'pos', 'time'), currents=None, max_steps=40, nonmultiple=False):
-    case = {'motor': draw(s_motor(currents=currents)),
-            'chain': draw(s_chain(max_len=max_len, worm=worm, locking=locking))}
-    mdl = M.Model(case)
-    case['load'] = s_load(draw, mdl, load_kinds)
-    case['init'] = s_init(draw, mdl)
+def add_variants(draw, case):
+    """options that do not change the physical model (every oracle stays as it is): a decoy powertrain with its own
+    Solver / control / sensors, a deep copy of the assembled powertrain, parameters re-expressed in place"""
     if draw(st.integers(0, 3)) == 0:
         case['decoy'] = True
     if draw(st.integers(0, 7)) == 0:
@@ -281,6 +276,17 @@ def s_case(draw, max_len=6, worm='maybe', locking=None, histories=('run', 'run+c
                 else draw(st.integers(0, n_el - 1))
             rx.append([i_, a_, draw(s_unit(kinds[a_]))])
         case['reexpress'] = rx
+
+
+@st.composite
+def s_case(draw, max_len=6, worm='maybe', locking=None, histories=('run', 'run+continue', 'reset+rerun'),
+           load_kinds=('const', 'speed', 'pos', 'time'), currents=None, max_steps=40, nonmultiple=False):
+    case = {'motor': draw(s_motor(currents=currents)),
+            'chain': draw(s_chain(max_len=max_len, worm=worm, locking=locking))}
+    mdl = M.Model(case)
+    case['load'] = s_load(draw, mdl, load_kinds)
+    case['init'] = s_init(draw, mdl)
+    add_variants(draw, case)
     h = draw(st.sampled_from(list(histories)))
     run1 = s_run(draw, mdl, max_steps=max_steps, nonmultiple=nonmultiple)
     if h == 'run':
